@@ -163,6 +163,7 @@ type ptObj struct {
 }
 
 type Event struct {
+	Adopt  int                    `json:"adopt,omitempty"` // 1: already validated in an earlier program of this file (shared prelude); only its post-state is taken over
 	Prog   int                    `json:"prog"`
 	I      int                    `json:"i"`
 	Op     string                 `json:"op"`
